@@ -88,6 +88,12 @@ Fixpoint qrun (cap_c cap_s : nat) (s : qst) (ls : list qlbl) : option qst :=
 Fixpoint posted (ls : list qlbl) : list msg :=
   match ls with [] => [] | QPost b :: r => b ++ posted r | _ :: r => posted r end.
 
+(* messages still under way, weighted by the number of steps each still needs *)
+Definition pending (s : qst) : nat :=
+  2 * List.length (post s) + List.length (cq s) + 2 * List.length (from_backend s) + List.length (sq s).
+Definition internal (l : qlbl) : bool := match l with QPost _ => false | _ => true end.
+
+
 (* ---- header injection on an abstract JSON object ---- *)
 Inductive json :=
 | JO (fields : list (string * json))
